@@ -300,7 +300,7 @@ func genConfig(t *rapid.T, tr memfs.Tree, o cfgOpts) walkmodel.Config {
 		}
 	}
 	pickDir := func(label string) string {
-		if len(dirLinks) > 0 && rapid.IntRange(0, 4).Draw(t, label+"_link") == 0 {
+		if len(dirLinks) > 0 && rapid.Bool().Draw(t, label+"_link") {
 			return rapid.SampledFrom(dirLinks).Draw(t, label+"_l")
 		}
 		if len(dirs) == 0 {
